@@ -688,6 +688,306 @@ fn run_ws_case(m: &mut Model, ops: &[Op], max_txs: usize, auto_merge: bool, max_
     out
 }
 
+// ------------------------------------------------------------------ stream V: auto-merge under the transition validator
+//
+// With a NON-EMPTY global codebook `find_and_merge_orthogonal` asks the `TransitionValidator` about every merge
+// candidate and marks a rejected one `Failed`.  The validators used here decide by the SIZE of the candidate's delta
+// (so the verdict does not depend on the `HashMap` order the candidates are visited in): a "small" delta (0.05 along
+// the workspace's own axis) is accepted, a "big" one (3.0) is rejected by `reject_big` (non-strict, magnitude limit
+// 1.0) and by `strict` (the configuration of the repo's own test `test_auto_merge_validation_rejects_candidate`:
+// default `ValidationConfig`, one centroid along the committer's axis); `accept_all` (non-strict, no effective limit)
+// accepts both; `empty` is the default empty codebook (validator not consulted).
+// Property oracle (implementation only; Lean: rejected_candidate_contributes_nothing, failed_candidate_ops_not_in_block,
+// failed_candidate_writes_not_in_store): after every commit the new block holds exactly the operations of the
+// workspaces that became `Committed` in that call, the store is the replay of the Committed workspaces, and a
+// workspace that ended `Failed` has none of its operations in any block and none of its writes in the store.
+
+const VM_FAILED_CLASS: &str = "tensor_chain.commit/failed_merge_candidate_writes_applied";
+
+#[derive(Clone, Debug, PartialEq)]
+enum VmStep {
+    /// slot, direction (0 = zero delta), size of the delta: 0 = small (0.05), 1 = unit (1.0), 2 = big (3.0)
+    Begin(usize, u64, u8),
+    Add(usize, Tx),
+    Commit(usize),
+}
+fn show_vm(s: &VmStep) -> String {
+    match s {
+        VmStep::Begin(w, d, size) => format!("begin ws{w} delta={}*e{d}", if *d == 0 { "0" } else { ["0.05", "1.0", "3.0"][*size as usize % 3] }),
+        VmStep::Add(w, t) => format!("ws{w}: {}", t.show()),
+        VmStep::Commit(w) => format!("commit ws{w}"),
+    }
+}
+fn vm_chain(validator: &str, auto_merge: bool, centroid_dir: u64) -> (TensorChain, TensorStore) {
+    use tensor_chain::{CodebookConfig, GlobalCodebook, ValidationConfig};
+    let store = TensorStore::new();
+    let mut cfg = ChainConfig::new("n");
+    cfg.auto_merge = AutoMergeConfig { enabled: auto_merge, orthogonal_threshold: 0.1, max_merge_batch: 10, merge_window_ms: u64::MAX / 4 };
+    let tc = if validator == "empty" {
+        TensorChain::with_identity(store.clone(), cfg, node_identity())
+    } else {
+        let vc = match validator {
+            "strict" => ValidationConfig::default(),
+            "reject_big" => ValidationConfig { strict_transition: false, max_transition_magnitude: 1.0, ..ValidationConfig::default() },
+            _ => ValidationConfig { strict_transition: false, max_transition_magnitude: 1.0e9, ..ValidationConfig::default() },
+        };
+        TensorChain::with_codebook(store.clone(), cfg, GlobalCodebook::from_centroids(vec![unit(centroid_dir.max(1))]), CodebookConfig::default(), vc)
+    };
+    tc.initialize().unwrap();
+    (tc, store)
+}
+struct VmOutcome {
+    disagreements: Vec<(String, String, String)>,
+    violations: Vec<(String, String)>,
+    hits: Vec<String>,
+    nontrivial: bool,
+}
+/// Run one step list on a fresh real `TensorChain` built with the validator; every commit is also put to the model's
+/// merge loop (`vmerge`) with the verdict bits the validator's configuration predicts.
+fn run_vm_case(m: &mut Model, validator: &str, auto_merge: bool, steps: &[VmStep]) -> VmOutcome {
+    let mut out = VmOutcome { disagreements: vec![], violations: vec![], hits: vec![], nontrivial: false };
+    // the centroid of the non-empty codebooks lies along the first committer's axis (as in the repo's test)
+    let first_committer_dir = steps.iter().find_map(|s| if let VmStep::Commit(w) = s { steps.iter().find_map(|b| matches!(b, VmStep::Begin(x, _, _) if x == w).then(|| if let VmStep::Begin(_, d, _) = b { *d } else { 0 })) } else { None }).unwrap_or(1);
+    let (tc, store) = vm_chain(validator, auto_merge, first_committer_dir);
+    let mut wss: BTreeMap<usize, (Arc<TransactionWorkspace>, u64, u8)> = BTreeMap::new();
+    let mut expect_data: BTreeMap<u64, u64> = BTreeMap::new();
+    let mut expect_height = 0u64;
+    let mut broken = false;
+    for (i, st) in steps.iter().enumerate() {
+        match st {
+            VmStep::Begin(w, d, size) => {
+                if wss.contains_key(w) {
+                    continue;
+                }
+                let x = tc.begin().unwrap();
+                x.set_before_embedding(&vec![0.0; DIM]);
+                let mut v = unit(*d);
+                for f in v.iter_mut() {
+                    *f *= [0.05f32, 1.0, 3.0][*size as usize % 3];
+                }
+                x.compute_delta(&v);
+                wss.insert(*w, (x, *d, *size));
+            }
+            VmStep::Add(w, t) => {
+                if let Some((x, _, _)) = wss.get(w) {
+                    let _ = x.add_operation(t.real());
+                }
+            }
+            VmStep::Commit(w) => {
+                let Some((x, d, size)) = wss.get(w).map(|(x, d, b)| (x.clone(), *d, *b)) else { continue };
+                let states_before: BTreeMap<usize, TransactionState> = wss.iter().map(|(k, v)| (*k, v.0.state())).collect();
+                // the candidates `find_merge_candidates` returns: Active, non-zero delta, another axis
+                let cands: Vec<usize> = wss.iter().filter(|(k, v)| *k != w && v.0.state() == TransactionState::Active && v.1 != 0 && v.1 != d && d != 0 && auto_merge && x.state() == TransactionState::Active && x.operation_count() > 0).map(|(k, _)| *k).collect();
+                let before = chain_snap(&tc, &store);
+                let own_ops = x.operations();
+                let r = tc.commit(&x);
+                let after_states: BTreeMap<usize, TransactionState> = wss.iter().map(|(k, v)| (*k, v.0.state())).collect();
+                let newly = |st: TransactionState| -> Vec<usize> { wss.keys().filter(|k| *k != w && states_before[*k] == TransactionState::Active && after_states[*k] == st).copied().collect() };
+                let (merged, failed) = (newly(TransactionState::Committed), newly(TransactionState::Failed));
+                let h = tc.height();
+                let imp = match &r {
+                    Ok(_) if own_ops.is_empty() && states_before[w] == TransactionState::Active => "empty".to_string(),
+                    Ok(_) => {
+                        let txs = read_block(&store, h).map(|b| b.transactions.iter().map(show_real_tx).collect::<Vec<_>>()).unwrap_or_default();
+                        format!("txs={} merged={} failed={}", show_list(txs, true), show_list(merged.iter().map(|k| k.to_string()).collect(), true), show_list(failed.iter().map(|k| k.to_string()).collect(), true))
+                    }
+                    Err(e) => verr(e),
+                };
+                out.hits.push(format!("vmerge.{validator}.commit.{}", imp.split(' ').next().unwrap_or("").split('=').next().unwrap_or("")));
+                if !merged.is_empty() {
+                    out.hits.push(format!("vmerge.{validator}.candidate_merged"));
+                }
+                if !failed.is_empty() {
+                    out.hits.push(format!("vmerge.{validator}.candidate_rejected"));
+                }
+                if !merged.is_empty() && !failed.is_empty() {
+                    out.hits.push("vmerge.accepted_and_rejected_in_one_commit".to_string());
+                }
+                // ---- correspondence: the model's merge loop with the predicted verdict bits
+                if r.is_ok() && !own_ops.is_empty() && states_before[w] == TransactionState::Active {
+                    let line = format!(
+                        "vmerge {} {} {d} {}",
+                        u8::from(validator != "empty"),
+                        own_ops.iter().map(show_real_tx).collect::<Vec<_>>().join(","),
+                        if cands.is_empty() { "-".to_string() } else { cands.iter().map(|k| {
+                            let (cx, cd, cbig) = &wss[k];
+                            let ops = cx.operations();
+                            format!("{k}/1/{}/{cd}/{}", u8::from(match validator { "strict" => size == 1 && d == first_committer_dir && *cbig == 0, "reject_big" => *cbig != 2, _ => true }), if ops.is_empty() { "-".to_string() } else { ops.iter().map(show_real_tx).collect::<Vec<_>>().join(",") })
+                        }).collect::<Vec<_>>().join(";") }
+                    );
+                    let model = m.ask(&line);
+                    let model = model.split(" ndirs=").next().unwrap_or("").to_string();
+                    if model != imp {
+                        out.disagreements.push((format!("step {i} {} [{line}]", show_vm(st)), imp.clone(), model));
+                    }
+                }
+                // ---- property oracles on the real chain and store
+                if broken {
+                    continue;
+                }
+                let fail_ops = |wss: &BTreeMap<usize, (Arc<TransactionWorkspace>, u64, u8)>| -> Vec<(usize, Transaction)> {
+                    wss.iter().filter(|(_, v)| v.0.state() == TransactionState::Failed).flat_map(|(k, v)| v.0.operations().into_iter().map(move |o| (*k, o))).collect()
+                };
+                match &r {
+                    Ok(_) if !(own_ops.is_empty() && states_before[w] == TransactionState::Active) => {
+                        out.nontrivial = true;
+                        expect_height += 1;
+                        let mut want: Vec<Transaction> = own_ops.clone();
+                        for k in &merged {
+                            want.extend(wss[k].0.operations());
+                        }
+                        for t in &want {
+                            apply_to_image(&mut expect_data, t);
+                        }
+                        let have = read_block(&store, h).map(|b| b.transactions).unwrap_or_default();
+                        let mut surplus = have.clone();
+                        for t in &want {
+                            if let Some(p) = surplus.iter().position(|x| x == t) {
+                                surplus.remove(p);
+                            } else {
+                                broken = true;
+                                out.violations.push(("tensor_chain.commit/committed_op_not_in_block".into(), format!("step {i} ({}): operation {} of a workspace that became Committed is not in block {h}", show_vm(st), show_real_tx(t))));
+                            }
+                        }
+                        if !surplus.is_empty() {
+                            broken = true;
+                            let fo = fail_ops(&wss);
+                            let owners: Vec<String> = surplus.iter().map(|t| fo.iter().find(|(_, o)| o == t).map_or_else(|| format!("{} (of no Failed workspace)", show_real_tx(t)), |(k, _)| format!("{} (of ws{k}, state Failed)", show_real_tx(t)))).collect();
+                            let class = if surplus.iter().all(|t| fo.iter().any(|(_, o)| o == t)) { VM_FAILED_CLASS } else { "tensor_chain.commit/block_not_committed_workspaces" };
+                            out.violations.push((class.into(), format!("step {i} ({}): block {h} holds operations of no workspace that became Committed: {}", show_vm(st), owners.join(", "))));
+                        }
+                        if h != expect_height {
+                            broken = true;
+                            out.violations.push(("tensor_chain.commit/not_one_new_block".into(), format!("step {i} ({}): height {h}, want {expect_height}", show_vm(st))));
+                        }
+                    }
+                    Ok(_) => {}
+                    Err(e) => {
+                        let after = chain_snap(&tc, &store);
+                        if after != before {
+                            broken = true;
+                            out.violations.push(("tensor_chain.commit/failed_commit_changed_state".into(), format!("step {i} ({}): commit = {e}; {}", show_vm(st), snap_diff(&before, &after).join("; "))));
+                        }
+                    }
+                }
+                let img = data_image(&store);
+                if !broken && img != expect_data {
+                    broken = true;
+                    let fo = fail_ops(&wss);
+                    let diff: Vec<u64> = img.keys().chain(expect_data.keys()).filter(|k| img.get(*k) != expect_data.get(*k)).copied().collect::<BTreeSet<_>>().into_iter().collect();
+                    let by_failed = diff.iter().all(|k| fo.iter().any(|(_, o)| *o.affected_key() == format!("d{k}")));
+                    let class = if by_failed { VM_FAILED_CLASS } else { "tensor_chain.commit/merge_commit_not_atomic" };
+                    out.violations.push((class.into(), format!("step {i} ({}): the store is not the replay of the Committed workspaces: data={} want {}; differing keys {:?}{}", show_vm(st), show_image(&img), show_image(&expect_data), diff, if by_failed { " are all written by workspaces in state Failed" } else { "" })));
+                }
+                if !broken {
+                    let ver = tc.verify();
+                    if ver.is_err() {
+                        broken = true;
+                        out.violations.push(("tensor_chain.commit/chain_does_not_verify".into(), format!("step {i} ({}): verify() = {}", show_vm(st), vres(ver))));
+                    }
+                }
+            }
+        }
+    }
+    // end of case: no operation of a workspace that ended Failed is in ANY block, beyond what Committed ones account for
+    if !broken {
+        let mut have: BTreeMap<String, i64> = BTreeMap::new();
+        for h in 0..=tc.height() {
+            if let Some(b) = read_block(&store, h) {
+                for t in &b.transactions {
+                    *have.entry(show_real_tx(t)).or_default() += 1;
+                }
+            }
+        }
+        let mut want: BTreeMap<String, i64> = BTreeMap::new();
+        for (x, _, _) in wss.values().filter(|v| v.0.state() == TransactionState::Committed) {
+            for o in x.operations() {
+                *want.entry(show_real_tx(&o)).or_default() += 1;
+            }
+        }
+        for (k, (x, _, _)) in wss.iter().filter(|(_, v)| v.0.state() == TransactionState::Failed) {
+            for o in x.operations() {
+                let t = show_real_tx(&o);
+                if have.get(&t).copied().unwrap_or(0) > want.get(&t).copied().unwrap_or(0) {
+                    out.violations.push((VM_FAILED_CLASS.into(), format!("end of case: operation {t} of ws{k} (state Failed) is in the chain's blocks")));
+                    return out;
+                }
+            }
+        }
+    }
+    out
+}
+/// a random case of the shape the validator matters for: 2-5 workspaces on pairwise different axes (sometimes a zero
+/// delta), big and small deltas, own keys per workspace plus shared keys a second workspace deletes / overwrites
+fn gen_vm_case(r: &mut Rng) -> (String, bool, Vec<VmStep>) {
+    let validator = *r.pick(&["strict", "strict", "reject_big", "reject_big", "accept_all", "empty"]);
+    let auto_merge = !r.chance(1, 8);
+    let n = 2 + r.below(4) as usize;
+    let mut steps = Vec::new();
+    let mut val = 1u64;
+    let first = r.below(n as u64) as usize;
+    for w in 0..n {
+        let d = if r.chance(1, 8) { 0 } else { w as u64 + 1 };
+        steps.push(VmStep::Begin(w, d, if w == first { 1 } else if r.chance(1, 2) { 2 } else { 0 }));
+    }
+    // shared keys 1..=3: written by the first committer, touched by at most one other workspace each
+    let mut other: Vec<usize> = (0..n).filter(|w| *w != first).collect();
+    for k in 1..=3u64 {
+        if r.chance(2, 3) {
+            steps.push(VmStep::Add(first, Tx::Put(k, val)));
+            val += 1;
+            if !other.is_empty() && r.chance(2, 3) {
+                let o = other.remove(r.below(other.len() as u64) as usize);
+                steps.push(VmStep::Add(o, match r.below(3) { 0 => Tx::Del(k), 1 => Tx::Cas(k, Some(val - 1), val), _ => Tx::Put(k, val) }));
+                val += 1;
+            }
+        }
+    }
+    for w in 0..n {
+        for _ in 0..(if w == first { 1 } else { r.below(3) } + u64::from(r.chance(3, 4))) {
+            let k = 10 * (w as u64 + 1) + r.below(2);
+            steps.push(VmStep::Add(w, match r.below(6) { 0 => Tx::Del(k), 1 => Tx::Cas(k, None, val), _ => Tx::Put(k, val) }));
+            val += 1;
+        }
+    }
+    steps.push(VmStep::Commit(first));
+    // then the others, in a random order (Failed ones must be refused and change nothing; Active ones commit / merge)
+    let mut rest: Vec<usize> = (0..n).filter(|w| *w != first).collect();
+    while !rest.is_empty() {
+        let w = rest.remove(r.below(rest.len() as u64) as usize);
+        if r.chance(3, 4) {
+            steps.push(VmStep::Commit(w));
+        }
+    }
+    (validator.to_string(), auto_merge, steps)
+}
+/// the minimal history the validator's rejection matters for, and its neighbours
+fn vm_directed() -> Vec<(&'static str, &'static str, bool, Vec<VmStep>)> {
+    use VmStep::*;
+    let two = |big: u8| vec![Begin(0, 1, 1), Add(0, Tx::Put(1, 1)), Begin(1, 2, big), Add(1, Tx::Put(2, 2)), Add(1, Tx::Del(1)), Commit(0), Commit(1)];
+    let three = vec![
+        Begin(0, 1, 1), Add(0, Tx::Put(1, 1)), Add(0, Tx::Put(2, 2)),
+        Begin(1, 2, 2), Add(1, Tx::Put(21, 3)), Add(1, Tx::Del(1)),
+        Begin(2, 3, 0), Add(2, Tx::Put(31, 4)), Add(2, Tx::Cas(2, Some(2), 5)),
+        Begin(3, 0, 2), Add(3, Tx::Put(41, 6)),
+        Commit(0), Commit(1), Commit(2), Commit(3),
+    ];
+    let mut v = vec![
+        ("rejected candidate: unit deltas, the configuration of the repo's test", "strict", true, two(1)),
+        ("rejected candidate (strict validator, big delta)", "strict", true, two(2)),
+        ("rejected candidate (magnitude limit)", "reject_big", true, two(2)),
+        ("accepted candidate, strict validator", "strict", true, two(0)),
+        ("accepted candidate, magnitude limit", "reject_big", true, two(0)),
+        ("big candidate, accepting validator", "accept_all", true, two(2)),
+        ("big candidate, empty codebook", "empty", true, two(2)),
+        ("big candidate, auto-merge off", "strict", false, two(2)),
+    ];
+    for val in ["strict", "reject_big", "accept_all", "empty"] {
+        v.push(("rejected, accepted and zero-delta workspaces in one commit", val, true, three.clone()));
+    }
+    v
+}
+
 // ------------------------------------------------------------------ stream L: sequential commits that fail LATE
 //
 // `TensorChain::commit` can fail after the workspace's operations were applied to the store: `Chain::append`
@@ -2352,6 +2652,42 @@ fn main() {
 
 
     // ---------------- directed cases (run first on every run, independent of the seed)
+
+    // (0) AUTO-MERGE UNDER A TRANSITION VALIDATOR (non-empty global codebook): rejecting and accepting validators, the
+    // minimal history first (two open workspaces on orthogonal axes, the second rejected as merge candidate of the first).
+    {
+        let vm_stream = |rep: &mut Report, m: &mut Model, stream: &str, name: &str, validator: &str, auto_merge: bool, steps: &[VmStep], violation: &mut dyn FnMut(&mut Report, &str, &str, Value)| {
+            let out = run_vm_case(m, validator, auto_merge, steps);
+            for h in &out.hits {
+                rep.hit(h);
+            }
+            let shown: Vec<String> = steps.iter().map(show_vm).collect();
+            for (at, imp, model) in &out.disagreements {
+                rep.disagree(stream, json!({"case": name, "validator": validator, "auto_merge": auto_merge, "steps": shown, "at": at}), imp, model);
+            }
+            if let Some(first) = out.violations.first() {
+                let class = first.0.clone();
+                let mut fails = |cand: &[VmStep]| -> bool { run_vm_case(m, validator, auto_merge, cand).violations.iter().any(|v| v.0 == class) };
+                let small = shrink_list(steps, &mut fails);
+                let what = run_vm_case(m, validator, auto_merge, &small).violations.into_iter().find(|v| v.0 == class).map_or_else(|| first.1.clone(), |v| v.1);
+                violation(rep, &class, &what, json!({"stream": stream, "case": name, "validator": validator, "auto_merge": auto_merge, "codebook": if validator == "empty" { "empty (default)" } else { "one centroid along the first committer's axis" }, "steps": small.iter().map(show_vm).collect::<Vec<_>>()}));
+            }
+            let text = format!("{validator} {auto_merge} {}", shown.join(";"));
+            rep.case(stream, if out.nontrivial { Some(&text) } else { None });
+        };
+        for (name, validator, auto_merge, steps) in vm_directed() {
+            vm_stream(&mut rep, &mut m, "directed.vmerge", name, validator, auto_merge, &steps, &mut violation);
+        }
+        let mut r = root.fork("vmerge");
+        for case in 0..150 * scale {
+            let (validator, auto_merge, steps) = gen_vm_case(&mut r);
+            if case < 2 {
+                rep.sample(json!({"stream": "vmerge", "validator": validator, "auto_merge": auto_merge, "steps": steps.iter().map(show_vm).collect::<Vec<_>>()}));
+            }
+            vm_stream(&mut rep, &mut m, "vmerge", "random", &validator, auto_merge, &steps, &mut violation);
+        }
+        lap("vmerge");
+    }
     // (1) REGRESSION of repo commit b368f92a, class tensor_chain.commit/workspace_write_to_chain_namespace: the chain
     // keeps its block records and its height record in the store its transactions write to; `add_operation` must
     // refuse every key under the reserved `chain:` prefix.  Oracle: an ACCEPTED key under the prefix is a violation
